@@ -411,8 +411,10 @@ func (op *Element[T]) ReadFrom(r io.Reader) (n int64, err error) {
 			}
 
 			n += inc
-		} else {
+		} else if hasMetaData == 0 {
 			op.MetaData = nil
+		} else {
+			return n, fmt.Errorf("invalid presence byte %d", hasMetaData)
 		}
 
 		inc, err = op.Value.ReadFrom(r)
